@@ -307,7 +307,7 @@ class Check:
             canaries = 1
             if not ok:
                 sub.vacuity.append(f'{obs[0].name}: hypotheses unsatisfiable (vacuous)')
-        timeout = 20000 if self.tier == 'quick' else 60000
+        timeout = int(os.environ.get('VF_TIMEOUT_MS') or (20000 if self.tier == 'quick' else 60000))
         recs = []
         for ob in obs:
             # refutation hint: a model of hyps ∧ ¬goal ∧ hint is a genuine counter-model of the obligation (the hint
